@@ -547,23 +547,33 @@ theorem Loc.getHolder {r : Nat} (sys : Sys) {x : Id} (hx : x.reg = r) (v : Var) 
     have hhid : hid.reg = r := hpo.2.1 _ (alGet_mem hh)
     exact Loc.bind (Loc.rdHolder hhid) fun ho hho => Loc.pure _ ⟨hhid, hho⟩
 
+theorem Loc.diskLookup {r : Nat} {disk : Option Id} (hd : ∀ d, disk = some d → d.reg = r) (p : Period) :
+    Loc r (diskLookup disk p) (fun _ => True) := by
+  unfold Heap.diskLookup
+  cases disk with
+  | none => exact Loc.pure _ trivial
+  | some did => exact Loc.bind (Loc.rdDisk (hd did rfl)) fun d hdo => Loc.diskFind hdo p
+
 theorem Loc.holderFind {r : Nat} {ho : HolderObj} (hho : InReg r (.holder ho)) (p : Period) :
     Loc r (holderFind ho p) (fun _ => True) := by
   unfold Heap.holderFind
   refine Loc.bind (Loc.rdStore hho.2.2.1) fun st _ => ?_
   split
   · exact Loc.pure _ trivial
-  · cases hd : ho.disk with
-    | none => exact Loc.pure _ trivial
-    | some did => exact Loc.bind (Loc.rdDisk (hho.2.2.2 did hd)) fun d hdo => Loc.diskFind hdo p
+  · exact Loc.diskLookup hho.2.2.2 p
+
+theorem Loc.diskPeriods {r : Nat} {disk : Option Id} (hd : ∀ d, disk = some d → d.reg = r) :
+    Loc r (diskPeriods disk) (fun _ => True) := by
+  unfold Heap.diskPeriods
+  cases disk with
+  | none => exact Loc.pure _ trivial
+  | some did => exact Loc.bind (Loc.rdDisk (hd did rfl)) fun d _ => Loc.pure _ trivial
 
 theorem Loc.knownPeriods {r : Nat} {ho : HolderObj} (hho : InReg r (.holder ho)) :
     Loc r (knownPeriods ho) (fun _ => True) := by
   unfold Heap.knownPeriods
   refine Loc.bind (Loc.rdStore hho.2.2.1) fun st _ => ?_
-  cases hd : ho.disk with
-  | none => exact Loc.pure _ trivial
-  | some did => exact Loc.bind (Loc.rdDisk (hho.2.2.2 did hd)) fun d _ => Loc.pure _ trivial
+  exact Loc.bind (Loc.diskPeriods hho.2.2.2) fun _ _ => Loc.pure _ trivial
 
 theorem Loc.holderKnown {r : Nat} {ho : HolderObj} (hho : InReg r (.holder ho)) :
     Loc r (holderKnown ho) (fun _ => True) := by
